@@ -17,6 +17,7 @@ from valida.schema import Schema
 
 from .. import gen as G
 from ..common import Report, stream, digest, order_to_decisions, big
+from ..isolation import pristine_state
 from ..engine import Engine, Monitor, Scripted
 from ..ops import canon_vd
 from ..terms import World, TYPES, snap, diff_path, attr_locus
@@ -252,7 +253,8 @@ class Model:
         self.schemas[dst] = self._sorted(list(self.schemas[dst]) + new)
 
     def fresh_schema(self, i):
-        return Schema(rules=[mr.build(self.w) for mr in self.schemas[i]])
+        with pristine_state():
+            return Schema(rules=[mr.build(self.w) for mr in self.schemas[i]])
 
 
 # --------------------------------------------------------------------------
@@ -334,6 +336,8 @@ def semantic_check(world, model_before, op, docs):
         if any(not (isinstance(n, (dict, list)) and n) for n, _cp in nodes):
             continue
         try:
+            _ps = pristine_state()
+            _ps.__enter__()
             before = mo.fresh_schema(dst).validate(d)
             exp_paths = failing_paths(before)
             exp_fail = before.num_failures
@@ -352,6 +356,8 @@ def semantic_check(world, model_before, op, docs):
             exp_tested = before.num_rules_tested + len(tested_t)
         except Exception:
             continue  # the reference itself is undefined here (C05/C07 territory)
+        finally:
+            _ps.__exit__(None, None, None)
         try:
             after = world.get("schemas", dst).validate(d)
             got = (after.is_valid, after.num_failures, after.num_rules_tested, failing_paths(after))
@@ -466,7 +472,8 @@ def on_boundary(eng, c, k, op, out):
             st["behaviour_skipped_tie_order_and_casts"] += 1
             continue
         for di, d in enumerate(docs):
-            want = validate_outcome(fresh, d, strict=same_order)
+            with pristine_state():
+                want = validate_outcome(fresh, d, strict=same_order)
             got = validate_outcome(real, d, strict=same_order)
             st["behavioural_checked"] += 1
             if want != got:
